@@ -20,6 +20,7 @@ type Options struct {
 
 // Exec generates the verification condition of one function under contract.
 type Exec struct {
+	proving   bool // a clause is being evaluated as a proof obligation (see proving() in the specification language)
 	assertHit map[*CallAssert]bool
 	fwd       map[string]fwdEntry // store-to-load forwarding per heap version (see store)
 	prog         *Program
@@ -626,7 +627,9 @@ func (ex *Exec) enterLoop(fr *Frame, li *loopInfo, states []*State, conds []Term
 	// 1. invariants hold on entry
 	for _, inv := range ls.Invariants {
 		env := ex.loopEnv(fr, li, pre)
+		ex.proving = true
 		g := ex.evalBool(inv.E, env)
+		ex.proving = false
 		o := ex.vc.oblige("invariant-init", fr.name(fmt.Sprintf("%s.init", inv.Name())), reach, g, inv.Where)
 		o.Descr = inv.Text
 	}
@@ -786,7 +789,9 @@ func (ex *Exec) closeLoop(fr *Frame, li *loopInfo, from *ssa.BasicBlock, cond Te
 	}
 	for _, inv := range ls.Invariants {
 		env := ex.loopEnv(fr, li, st)
+		ex.proving = true
 		g := ex.evalBool(inv.E, env)
+		ex.proving = false
 		o := ex.vc.oblige("invariant-preserved", fr.name(fmt.Sprintf("%s.preserved", inv.Name())), cond, g, inv.Where)
 		o.Descr = inv.Text
 	}
